@@ -81,6 +81,11 @@ theorem first_zero (flags : List Bool) (n first : Nat) (rest : List Nat)
     | zero => exact absurd hfz hne
     | succ m => rfl
 
+/-- the bloom filter size executeCompaction passes is never 0 -/
+theorem newWriter_pos (n : Nat) : newWriter (if n = 0 then 1 else n) = .ok () := by
+  unfold newWriter
+  split <;> simp_all
+
 /-- `DBM.compactStep`, its pattern-matching lambdas written with projections -/
 theorem dbm_compactStep_eq (s : DBM.State) (sizes : List Nat) :
     DBM.compactStep s sizes =
@@ -137,7 +142,7 @@ theorem compactPlan_spec {P : Params} {c : Stack.State} {s : DBM.State} (h : Rel
       | @cons t0 a0 selC' selA' h0 hrest =>
         right
         obtain ⟨kvss, h1, h2, hasc⟩ := tables_mid (Rel2.cons h0 hrest)
-        simp only [scanAll_ok h1, scanInputs_eq, first_zero flags _ first rest hidx]
+        simp only [newWriter_pos, scanAll_ok h1, scanInputs_eq, first_zero flags _ first rest hidx]
         have hmc : ∀ drop : Bool,
             (Merge.mergeCompact ((kvss.map Merge.toItems).map Merge.inputOf) {}
               (if drop = true then Merge.scanReduceLatestWinsSkipTombstones
